@@ -14,6 +14,7 @@ from Geometry3D import (Point, Line, HalfLine, Segment, Plane, ConvexPolygon, Co
 from . import exact as X
 
 REPO = os.environ.get('VERIF_REPO', '/repo')
+PKG_DIR = os.path.dirname(os.path.realpath(G.__file__))
 
 
 def assert_binding():
